@@ -37,7 +37,7 @@ ASSUMPTIONS = [
 
 ROUTES = ["copy_from2", "copy_from2:children", "add_node:cross-tree", "tree2.copy_to", "set_data:data:with_clones", "remove:keep_children:with_clones", "add", "add:explicit-id", "append_child", "prepend_child", "prepend_sibling", "append_sibling", "add_node", "add_node:deep",
           "copy_to", "copy_to:children", "add_tree", "move", "remove:keep_children", "rename", "set_data:data", "set_data:id",
-          "set_data:with_clones"]
+          "set_data:with_clones", "add:before", "add_node:before", "copy_to:before", "move:before"]
 
 
 def collision_ops(eng):
@@ -51,6 +51,12 @@ def collision_ops(eng):
     def ref(m):
         return -1 if m is mt.root else idx[id(m)]
 
+    def positions(p, c):
+        """`before` values for a colliding insertion below p: before the conflicting child c itself, before the
+        first child (nothing precedes the position), as the first child."""
+        ci = [i for i, x in enumerate(p.children) if x is c][0]
+        return [["c", ci], ["c", 0], True]
+
     parents = [mt.root] + pre
     for p in parents:
         for c in p.children:
@@ -58,6 +64,8 @@ def collision_ops(eng):
             default_id = c.data_id == fl.auto_id(lab, c.data)
             if default_id:
                 out.append(("add", ["add", ref(p), lab, None, {}]))
+                for b in positions(p, c):
+                    out.append(("add:before", ["add", ref(p), lab, b, {}]))
                 if p is not mt.root:
                     out.append(("append_child", ["append_child", ref(p), lab, {}]))
                     out.append(("prepend_child", ["prepend_child", ref(p), lab, {}]))
@@ -75,6 +83,11 @@ def collision_ops(eng):
                 out.append(("copy_to", ["copy_to", ref(k), ref(p), True, None, False]))
                 if not mt.is_inside(p, k) and not eng.typed:
                     out.append(("move", ["move", ref(k), ref(p), None]))
+                for b in positions(p, c):
+                    out.append(("add_node:before", ["add_node", ref(p), 0, ref(k), False, b]))
+                    out.append(("copy_to:before", ["copy_to", ref(k), ref(p), True, b, False]))
+                    if not mt.is_inside(p, k) and not eng.typed:
+                        out.append(("move:before", ["move", ref(k), ref(p), b]))
             # a node elsewhere whose CHILD has c's id: copy_to(add_self=False) into p
             for k in pre:
                 if k is p or k.parent is None:
